@@ -8,7 +8,7 @@ From RPCX Require Wire.Bytes Wire.Header Wire.Codec Wire.CodecSpec.
 From RPCX Require Select.Simple Select.Jump Select.DoubleJump.
 From RPCX Require XClient.Breaker.
 From RPCX Require Client.ClientSM.
-From RPCX Require XClient.FailMode XClient.Multi XClient.Discovery XClient.Backup.
+From RPCX Require XClient.FailMode XClient.Multi XClient.Discovery XClient.Backup XClient.Metadata.
 From RPCX Require Server.Dispatch.
 From RPCX Require Pool.Pool.
 From RPCX Require Server.Ingress Server.Gateway.
@@ -32,6 +32,7 @@ Extraction "model.ml"
   FailMode.xcall Backup.xcall_backup
   Multi.broadcast Multi.fork Multi.inform
   Discovery.drun Discovery.drain Discovery.filter_servers
+  Metadata.filter_raw Metadata.weight_raw Metadata.keep_raw
   Dispatch.crun Dispatch.cinit
   Pool.find_get Pool.find_put Pool.class_size Pool.last_class
   Ingress.serve
